@@ -5,7 +5,7 @@
    [Print Assumptions]; models are in Model/, proofs in Proofs/. *)
 From Coq Require Import List NArith Bool Permutation.
 From FS Require Import Sx Model.Stat Model.Varint Model.Codec Model.CodecBound Model.Framing Model.MetaBuffer
-  Proofs.VarintP Proofs.CodecP Proofs.CodecBoundP Proofs.FramingP.
+  Model.Listing Proofs.VarintP Proofs.CodecP Proofs.CodecBoundP Proofs.FramingP Proofs.ListingP.
 From FSGen Require FromSource.
 Import ListNotations.
 Open Scope N_scope.
@@ -142,6 +142,28 @@ Theorem buffer_chunks_fit :
   forall recs, chunks_fit (alloc_all recs).
 Proof. exact FramingP.buffer_chunks_fit. Qed.
 
+(* ---- metadata listing file (used by C19) -------------------------------------------------- *)
+
+(* The listing receive.go records — per Stat a 4-byte little-endian length followed by the VT
+   encoding — is parsed back, record by record, to exactly the recorded Stats in order.
+   listable = well-formed and SizeVT < 2^32 (the length is written as uint32(n)). *)
+Theorem listing_roundtrip :
+  forall stats, Forall listable stats ->
+    decode_listing (concat (map lframe (map encode_stat stats))) = Some stats.
+Proof. exact listing_roundtrip_proof. Qed.
+
+(* ... for every map iteration order chosen independently for every record *)
+Theorem listing_roundtrip_any_order :
+  forall stats recs, Forall listable stats -> Forall2 lrecord_of stats recs ->
+    decode_listing (concat recs) = Some stats.
+Proof. exact listing_roundtrip_any_order_proof. Qed.
+
+(* ... and through the chunked buffer of buffer.go, i.e. for the bytes of the file itself *)
+Theorem listing_file_roundtrip :
+  forall stats recs, Forall listable stats -> Forall2 lrecord_of stats recs ->
+    decode_listing (write_to (alloc_all recs)) = Some stats.
+Proof. exact listing_file_roundtrip_proof. Qed.
+
 Print Assumptions stat_roundtrip.
 Print Assumptions packet_roundtrip.
 Print Assumptions size_correct.
@@ -156,6 +178,9 @@ Print Assumptions recv_all_fragmentation.
 Print Assumptions recv_all_fragmentation_any_order.
 Print Assumptions buffer_is_concat.
 Print Assumptions buffer_chunks_fit.
+Print Assumptions listing_roundtrip.
+Print Assumptions listing_roundtrip_any_order.
+Print Assumptions listing_file_roundtrip.
 
 (* ---- non-vacuity ---------------------------------------------------------------------- *)
 
@@ -272,3 +297,18 @@ Example from_source_wire_tags :
     with_tags (tags_of FromSource.packet_pb_fields) [[1]; [0]; [1]; [1; 97]] /\
   FromSource.buffer_chunk_size = chunk_size.
 Proof. vm_compute. repeat split; reflexivity. Qed.
+
+(* a listing of three records (one of them the empty Stat: 00 00 00 00), its exact bytes for
+   the small records, and what a reader makes of cut files *)
+Example ex_listing :
+  let stats := [ex_stat; empty_stat; ones_stat] in
+  let file := concat (map lframe (map encode_stat stats)) in
+  Forall listable stats /\
+  decode_listing file = Some stats /\
+  skipn 85 file = [0; 0; 0; 0; 28; 0; 0; 0] ++ encode_stat ones_stat /\
+  decode_listing (firstn 87 file) = None /\             (* short header *)
+  decode_listing (firstn 100 file) = None /\            (* short record *)
+  decode_listing (firstn 89 file) = Some [ex_stat; empty_stat].
+Proof.
+  cbv zeta. split; [repeat constructor|]. vm_compute. repeat split; reflexivity.
+Qed.
